@@ -149,6 +149,7 @@ pub fn run(scn: &Value) -> Value {
         Ok(_) => {}
         Err(_) => std::env::set_var("OHKAMI_KEEPALIVE_TIMEOUT", &secs),
     }
+    if scn.get("probe_big").is_some() { return run_big(scn) }
     let (router, raws) = build(scn, seed);
     let ats: Vec<i64> = arr(&scn["conn"]).iter().map(|r| i(&r["at"])).collect();
     let fin = i(&scn["fin"]);
@@ -220,6 +221,38 @@ pub fn run(scn: &Value) -> Value {
     let late: Vec<Value> = sink.ev.iter().skip(lin).filter(|e| e.1 == "sv").map(rec).collect();
     let reads = sink.ev.iter().filter(|e| e.1 == "rd").count();
     json!({"kind": "timers", "sv": sv, "cl": cl, "late": late, "reads": reads as i64, "jit": jit as i64, "unit": UNIT_MS as i64})
+}
+
+/// Experiment for notes/TIMERS.md (not judged by the specification): a response that is larger than the socket buffers is being written
+/// when the session deadline expires, because the client does not read.  {"S":10,"probe_big":megabytes}
+fn run_big(scn: &Value) -> Value {
+    use tokio::io::{AsyncReadExt, AsyncWriteExt};
+    let sdl = i(&scn["S"]); let mb = i(&scn["probe_big"]).max(1) as usize;
+    let mut o = Ohkami::new(());
+    v::apply_handlers(&mut o, v::handler_set("/big").GET(move || async move { ev("sv", "hend", 1, 0); "x".repeat(mb << 20) }));
+    let router = v::finalize(o);
+    v::install_emit(emit);
+    let (received, head, eof_t, reset) = util::block_on(async move {
+        let l = tokio::net::TcpListener::bind("127.0.0.1:0").await.unwrap();
+        let addr = l.local_addr().unwrap();
+        let (c, sv) = tokio::join!(tokio::net::TcpStream::connect(addr), l.accept());
+        let (mut c, (sv, peer)) = (c.unwrap(), sv.unwrap());
+        let t0 = Instant::now();
+        *SINK.lock().unwrap() = Some(Sink { t0, ev: vec![] });
+        let server = tokio::spawn(async move { v::session(&router, sv, peer.ip()).await; ev("sv", "returned", 0, 0) });
+        c.write_all(b"GET /big HTTP/1.1\r\nHost: x\r\n\r\n").await.unwrap();
+        tokio::time::sleep_until(tokio::time::Instant::from_std(t0 + ticks(sdl) + Duration::from_millis(500))).await;
+        let mut got = 0usize; let mut head = String::new(); let mut buf = vec![0u8; 1 << 16]; let mut reset = 0;
+        loop { match c.read(&mut buf).await {
+            Ok(0) => break, Err(_) => { reset = 1; break }
+            Ok(m) => { if got == 0 { head = String::from_utf8_lossy(&buf[..m.min(120)]).into_owned() } got += m } } }
+        let eof_t = t0.elapsed().as_millis() as i64;
+        let _ = tokio::time::timeout(Duration::from_millis(500), server).await;
+        (got, head, eof_t, reset)
+    });
+    let sink = SINK.lock().unwrap().take().unwrap();
+    let sv: Vec<Value> = sink.ev.iter().filter(|e| e.1 == "sv").map(|e| json!({"t": e.0 as i64, "e": e.2, "a": e.3, "b": e.4})).collect();
+    json!({"kind": "bigwrite", "body_bytes": (mb << 20) as i64, "received_bytes": received as i64, "head": head, "sv": sv, "client_read_until_ms": eof_t, "reset": reset})
 }
 
 /// random scenarios in the same vocabulary, beyond TLC's bounds: deeper onions (up to 3 fangs per level, nested Timeouts),
